@@ -1031,7 +1031,16 @@ public:
     }
 
     region_domain_impl::region_info rhs_rgn_info = m_rgn_env.at(rhs_rgn);
-    m_rgn_env.set(lhs_rgn, rhs_rgn_info);
+    {
+      // The references that lhs already has keep pointing into it: its
+      // counter is only replaced when it has none.
+      region_domain_impl::region_info lhs_rgn_info(rhs_rgn_info);
+      const small_range old_refs = m_rgn_env.at(lhs_rgn).refcount_val();
+      if (!old_refs.is_zero()) {
+        lhs_rgn_info.refcount_val() = old_refs | rhs_rgn_info.refcount_val();
+      }
+      m_rgn_env.set(lhs_rgn, lhs_rgn_info);
+    }
 
     if (crab_domain_params_man::get().region_allocation_sites()) {
       m_alloc_env.set(lhs_rgn, m_alloc_env.at(rhs_rgn));
@@ -1133,11 +1142,21 @@ public:
     }
 
     region_domain_impl::region_info src_rgn_info = m_rgn_env.at(src_rgn);
+    // The references that dst already has keep pointing into it: its
+    // counter is only replaced when it has none.
+    auto dst_refcount_after_cast = [this, &dst_rgn, &src_rgn_info]() {
+      const small_range old_refs = m_rgn_env.at(dst_rgn).refcount_val();
+      if (old_refs.is_zero()) {
+        return small_range(src_rgn_info.refcount_val());
+      } else {
+        return old_refs | src_rgn_info.refcount_val();
+      }
+    };
     if (!src_rgn.get_type().is_unknown_region()) {
       assert(dst_rgn.get_type().is_unknown_region());
 
       m_rgn_env.set(dst_rgn, region_domain_impl::region_info(
-                                      src_rgn_info.refcount_val(),
+                                      dst_refcount_after_cast(),
                                       src_rgn_info.init_val(),
                                       type_value(src_rgn.get_type())));
 
@@ -1164,7 +1183,7 @@ public:
       assert(!dst_rgn.get_type().is_unknown_region());
 
       m_rgn_env.set(dst_rgn, region_domain_impl::region_info(
-                                      src_rgn_info.refcount_val(),
+                                      dst_refcount_after_cast(),
                                       src_rgn_info.init_val(),
                                       type_value(dst_rgn.get_type())));
 
